@@ -361,7 +361,7 @@ PROPS = {
         "lean_modules": ["AvroProofs.C17"],
         "theorems": ["Avro.C17.derived_fields_are_serde_fields", "Avro.C17.derived_tuple_fields", "Avro.C17.derived_variants_are_serde_variants",
                      "Avro.C17.plain_enum_default_is_symbol", "Avro.C17.plain_enum_shape", "Avro.C17.option_shape", "Avro.C17.option_of_union_is_a_panic",
-                     "Avro.C17.defined_name_gives_ref", "Avro.C17.option_of_union_panics", "Avro.C17.option_of_option_panics",
+                     "Avro.C17.defined_name_gives_ref", "Avro.C17.derive_wf_partial", "Avro.C17.option_of_union_panics", "Avro.C17.option_of_option_panics",
                      "Avro.C17.kebab_case_symbol_outside_grammar", "Avro.C17.variant_records_defined_twice"],
         "partial": [
             {"theorem": "Avro.C17.* (structure of the derived schema)",
@@ -369,10 +369,13 @@ PROPS = {
                             "(option_of_union_panics, kebab_case_symbol_outside_grammar, variant_records_defined_twice) are replayed on the crate as known findings. Proved for every "
                             "definition of the modelled language: record fields / union branches are exactly the unskipped fields / variants in declaration order under serde's names; "
                             "a plain enum's default is one of its symbols; Option<T> is [null, T] or a panic, and a panic exactly when that is no legal union; an already defined name "
-                            "derives to a reference. NOT proved: acceptance of every value by the serializer and the round trip through read_deser and the container - these involve "
+                            "derives to a reference; and derive_wf_partial: when the names the attributes produce are identifiers and distinct per record / enum (DeriveEnvOk, decidable, "
+                            "exactly what the kebab-case finding violates) every derived schema satisfies wfP, the local well-formedness the parser guarantees (C11) - uniqueness of "
+                            "definitions across the whole schema is not part of wfP and is what variant_records_defined_twice refutes. NOT proved: acceptance of every value by the serializer and the round trip through read_deser and the container - these involve "
                             "serde's generated code and the schema-aware (de)serializer and are decided by the oracle on generated values of every corpus type. The model covers structs "
                             "with named fields, unit-only enums and enums with data in the default union-of-records representation, with namespace / rename / rename_all / "
-                            "rename_all_fields / doc / alias / skip / default attributes; flatten, transparent, the other enum representations and generics are not modelled yet"},
+                            "rename_all_fields / doc / alias / skip / default attributes; flatten, transparent, the other enum representations and generics are not modelled: a hand-written "
+                            "corpus covers them with the oracle only"},
         ],
         "harness": c17_runs,
         "projection": "exact",
@@ -382,7 +385,9 @@ PROPS = {
                 "towards mentioning a definition twice), one recursive type; container attributes namespace / rename / doc / alias / rename_all (8 rules) / rename_all_fields, field "
                 "attributes rename / skip / default / alias / doc, variant attributes rename / skip / #[default]; every type's description in the model's definition language is "
                 "generated alongside; x generated values per type (boundary pools), written with write_ser, read with read_deser, and through Writer::append_ser / "
-                "Reader::into_deser_iter",
+                "Reader::into_deser_iter; plus 24 hand-written types outside the modelled language (oracle only, no model row): #[serde(flatten)] (plain, nested, of a namespaced "
+                "struct, under rename_all), #[serde(transparent)] (scalar, struct, Option; used twice and flattened), bare unions (untagged and externally tagged, with a skipped variant, "
+                "used twice), adjacently tagged enums (two with one tag name), internally tagged enums, a generic struct at two instantiations, arrays and nested containers",
         "trusted_base": TEXT_TB + ["tools/gen_c17.py emits each Rust definition together with its description in the model's language; that the two say the same is not checked "
                                    "beyond the rows agreeing", "serde's derive (the Serialize / Deserialize impls of the corpus types)"],
         "assumptions": [],
